@@ -1,2 +1,159 @@
--- stub: replaced by the component's line-protocol driver
-def main : IO Unit := pure ()
+import CelmaVerif.Base.Proto
+import CelmaVerif.Model.Int2Str
+import CelmaVerif.Generated.Int2Str
+/- line-protocol driver for the int2str component (C13): executes the tables that
+   translate/int2str.py regenerated from the C++ sources (Generated/Int2Str.lean) -/
+open CelmaVerif CelmaVerif.Int2Str CelmaVerif.Proto
+
+def parseType (s : String) : Option (Nat × Bool) :=
+  match s with
+  | "u8" => some (8, false) | "i8" => some (8, true)
+  | "u16" => some (16, false) | "i16" => some (16, true)
+  | "u32" => some (32, false) | "i32" => some (32, true)
+  | "u64" => some (64, false) | "i64" => some (64, true)
+  | _ => none
+
+/-- `-` plain, `d` grouped with the default character, a byte code = grouped with that character -/
+def parseGroup (s : String) : Option (Bool × Byte) :=
+  if s == "-" then some (false, 0)
+  else if s == "d" then some (true, Gen.defaultGroup)
+  else match s.toNat? with
+    | some n => if n < 256 then some (true, n) else none
+    | none => none
+
+def inType (bits : Nat) (signed : Bool) (v : Int) : Bool :=
+  if signed then decide (-(two (bits - 1)) ≤ v ∧ v < two (bits - 1)) else decide (0 ≤ v ∧ v < two bits)
+
+def showText (bs : List Byte) : String :=
+  if !bs.isEmpty && bs.all (fun b => 33 ≤ b && b ≤ 126) then String.ofList (bs.map Char.ofNat)
+  else "hex:" ++ hexEncode bs
+
+def resLine (r : Res α) (f : α → String) : String :=
+  match r with
+  | .ok a => f a
+  | .throw e => s!"throw {e.name}"
+  | .oob w => s!"oob {w}"
+
+def arenaFill (cap : Nat) : List Byte := (List.range cap).map fun i => ((32 + i) * 7 % 256) ^^^ 0xA5
+
+structure Conv where
+  text : List Byte
+  n : Int
+
+def convStr (grouped : Bool) (bits : Nat) (signed : Bool) (g : Byte) (v : Int) : Res Conv :=
+  match Gen.lib.str grouped bits signed g v with
+  | .ok t => .ok ⟨t, t.length⟩
+  | .throw e => .throw e
+  | .oob w => .oob w
+
+/-- buffer variant on a buffer of `|reference text| + 1 + extra` bytes; `note` reports what the
+    harness checks with its guard bytes -/
+def convBuf (grouped : Bool) (bits : Nat) (signed : Bool) (g : Byte) (v : Int) (extra : Nat) : Res (Conv × String) :=
+  let cap := (specText grouped g v).length + 1 + extra
+  let init := arenaFill cap
+  match Gen.lib.buf grouped bits signed g v init with
+  | .ok (m, r) =>
+    let rn := r.toNat
+    let note :=
+      if r < 0 || rn ≥ m.length then "ret-out-of-range"
+      else if m.getD rn 1 ≠ 0 then "nonul"
+      else if m.drop (rn + 1) ≠ init.drop (rn + 1) then "tail=dirty"
+      else "tail=ok"
+    .ok (⟨m.take rn, r⟩, note)
+  | .throw e => .throw e
+  | .oob w => .oob w
+
+def fnvPrime : UInt64 := 1099511628211
+def fnvInit : UInt64 := 14695981039346656037
+
+def fnvConv (h : UInt64) (c : Conv) : UInt64 :=
+  let h := c.text.foldl (fun h b => (h ^^^ UInt64.ofNat b) * fnvPrime) h
+  (h ^^^ UInt64.ofNat ((0x80 + c.n.toNat) % 256)) * fnvPrime
+
+def hex16 (h : UInt64) : String :=
+  String.ofList ((List.range 16).map fun i => hexDigit (h.toNat / 16 ^ (15 - i) % 16))
+
+def one (buf : Bool) (grouped : Bool) (bits : Nat) (signed : Bool) (g : Byte) (v : Int) : Res Conv :=
+  if buf then
+    match convBuf grouped bits signed g v 0 with
+    | .ok (c, note) => if note == "tail=ok" then .ok c else .oob note
+    | .throw e => .throw e
+    | .oob w => .oob w
+  else convStr grouped bits signed g v
+
+partial def sweepLoop (buf grouped : Bool) (bits : Nat) (signed : Bool) (g : Byte) (v hi : Int) (n : Nat) (h : UInt64) : String :=
+  if v > hi then s!"ok n={n} fnv={hex16 h}"
+  else
+    match one buf grouped bits signed g v with
+    | .ok c => sweepLoop buf grouped bits signed g (v + 1) hi (n + 1) (fnvConv h c)
+    | .throw e => s!"throw {e.name} value={v}"
+    | .oob w => s!"oob {w} value={v}"
+
+def smNext (s : UInt64) : UInt64 × UInt64 :=
+  let s := s + 0x9E3779B97F4A7C15
+  let z := s
+  let z := (z ^^^ (z >>> 30)) * 0xBF58476D1CE4E5B9
+  let z := (z ^^^ (z >>> 27)) * 0x94D049BB133111EB
+  (s, z ^^^ (z >>> 31))
+
+def randValue (bits : Nat) (signed : Bool) (r1 r2 : UInt64) : Int :=
+  let k := r1.toNat % (bits + 1)
+  let m := r2.toNat % 2 ^ k
+  if !signed then (m : Int)
+  else
+    let u := if (r1.toNat / 2 ^ 32) % 2 = 1 then (2 ^ bits - m) % 2 ^ bits else m
+    if u < 2 ^ (bits - 1) then (u : Int) else (u : Int) - (2 ^ bits : Nat)
+
+partial def rsweepLoop (buf grouped : Bool) (bits : Nat) (signed : Bool) (g : Byte) (s : UInt64) (left n : Nat) (h : UInt64) : String :=
+  if left = 0 then s!"ok n={n} fnv={hex16 h}"
+  else
+    let (s, r1) := smNext s
+    let (s, r2) := smNext s
+    let v := randValue bits signed r1 r2
+    match one buf grouped bits signed g v with
+    | .ok c => rsweepLoop buf grouped bits signed g s (left - 1) (n + 1) (fnvConv h c)
+    | .throw e => s!"throw {e.name} value={v}"
+    | .oob w => s!"oob {w} value={v}"
+
+def variant (s : String) : Option Bool :=
+  if s == "str" then some false else if s == "buf" then some true else none
+
+def step (_ : Unit) (line : String) : Unit × String :=
+  ((), match tokens line with
+  | ["case", _] => "ok"
+  | ["i2s", "str", ty, val, g] =>
+    match parseType ty, val.toInt?, parseGroup g with
+    | some (bits, signed), some v, some (grouped, gb) =>
+      if !inType bits signed v then "bad-op" else
+      resLine (convStr grouped bits signed gb v) fun c => s!"ok {showText c.text} len={c.n}"
+    | _, _, _ => "bad-op"
+  | ["i2s", "buf", ty, val, g, extra] =>
+    match parseType ty, val.toInt?, parseGroup g, extra.toNat? with
+    | some (bits, signed), some v, some (grouped, gb), some ex =>
+      if !inType bits signed v then "bad-op" else
+      resLine (convBuf grouped bits signed gb v ex) fun (c, note) => s!"ok {showText c.text} ret={c.n} {note}"
+    | _, _, _, _ => "bad-op"
+  | ["i2s", "sweep", var, ty, lo, hi, g] =>
+    match variant var, parseType ty, lo.toInt?, hi.toInt?, parseGroup g with
+    | some buf, some (bits, signed), some lo, some hi, some (grouped, gb) =>
+      if !inType bits signed lo || !inType bits signed hi then "bad-op" else
+      sweepLoop buf grouped bits signed gb lo hi 0 fnvInit
+    | _, _, _, _, _ => "bad-op"
+  | ["i2s", "rsweep", var, ty, seed, count, g] =>
+    match variant var, parseType ty, seed.toNat?, count.toNat?, parseGroup g with
+    | some buf, some (bits, signed), some seed, some count, some (grouped, gb) =>
+      rsweepLoop buf grouped bits signed gb (UInt64.ofNat seed) count 0 fnvInit
+    | _, _, _, _, _ => "bad-op"
+  -- implementation-only oracle sweeps (every value against an independent reference): the model's
+  -- answer is what the theorems state for all values, "no mismatch"
+  | ["i2s", "xsweep", ty, g] =>
+    match parseType ty, parseGroup g with
+    | some (bits, _), some _ => if bits ≤ 32 then s!"ok n={2 ^ bits} mismatches=0" else "bad-op"
+    | _, _ => "bad-op"
+  | ["i2s", "xrsweep", ty, seed, count, g] =>
+    match parseType ty, seed.toNat?, count.toNat?, parseGroup g with
+    | some _, some _, some count, some _ => s!"ok n={count} mismatches=0"
+    | _, _, _, _ => "bad-op"
+  | _ => "bad-op")
+
+def main : IO Unit := run () step
